@@ -708,8 +708,8 @@ def vmap_rule(ctx, method, rule="ALG-Vmap"):
                 got = m.ev(inax if inax is not None else NONE)
             except Unknown as e:
                 raise AnalysisError(f"{construct}: in_axes not evaluable for callee in_axes = {spec!r}: {e}")
-            except Exception as e:   # the modelled expression itself fails (e.g. tuple + int)
-                ck.fail(f"in_axes defined for callee in_axes = {spec!r}", f"{type(e).__name__}: {e}")
+            except Exception as e:   # the modelled expression itself fails (e.g. tuple + int): the method raises for this in_axes form
+                ck.fail(f"in_axes defined for every form jax.vmap accepts (None, int, tuple, list)", f"callee in_axes = {spec!r}: {e}")
                 continue
             want = prefix + norm
             if isinstance(got, list):
